@@ -104,6 +104,20 @@ where
                 .await
                 .with_context(|| format!("blob file dump failed: {:?}", self.name.as_path()))?;
 
+            #[cfg(pearl_verif)]
+            {
+                let res = self.index.dump(self.file_size()).await;
+                crate::verif::event("dumped", &[("blob", self.id() as u64), ("blob_size", self.file_size()),
+                    ("count", self.records_count() as u64), ("ok", res.is_ok() as u64),
+                    ("on_disk", self.index.on_disk() as u64)], None);
+                return res.with_context(|| {
+                    format!(
+                        "index file dump failed, associated blob file: {:?}",
+                        self.name.as_path()
+                    )
+                });
+            }
+            #[allow(unreachable_code)]
             self.index.dump(self.file_size()).await.with_context(|| {
                 format!(
                     "index file dump failed, associated blob file: {:?}",
@@ -119,6 +133,9 @@ where
             self.index.clear();
             self.try_regenerate_index().await?;
         }
+        #[cfg(pearl_verif)]
+        crate::verif::event("loaded", &[("blob", self.id() as u64), ("blob_size", self.file_size()),
+            ("count", self.records_count() as u64)], None);
         Ok(())
     }
 
@@ -257,7 +274,14 @@ where
         let blob = blob.upgradable_read().await;
         let write_result = partially_serialized.write_to_file(&blob.file).await?;
         header.set_offset_checksum(write_result.blob_offset(), write_result.header_checksum());
+        #[cfg(pearl_verif)]
+        let verif_ev = [("blob", blob.id() as u64), ("off", header.blob_offset()),
+            ("len", header.serialized_size() + header.meta_size() + header.data_size()),
+            ("ts", header.timestamp()), ("del", header.is_deleted() as u64)];
         blob.index.push(key, header)?;
+        // still under the upgradable lock: the record is indexed and not yet visible to a next writer
+        #[cfg(pearl_verif)]
+        crate::verif::event("append", &verif_ev, Some(key.as_ref()));
         Ok(WriteResult { dirty_bytes: blob.file.dirty_bytes() })
     }
 
@@ -266,7 +290,13 @@ where
         let (record, mut header) = record.to_partially_serialized_and_header()?;
         let write_result = record.write_to_file(&self.file).await?;
         header.set_offset_checksum(write_result.blob_offset(), write_result.header_checksum());
+        #[cfg(pearl_verif)]
+        let verif_ev = [("blob", self.id() as u64), ("off", header.blob_offset()),
+            ("len", header.serialized_size() + header.meta_size() + header.data_size()),
+            ("ts", header.timestamp()), ("del", header.is_deleted() as u64)];
         self.index.push(key, header)?;
+        #[cfg(pearl_verif)]
+        crate::verif::event("append", &verif_ev, Some(key.as_ref()));
         Ok(WriteResult { dirty_bytes: self.file.dirty_bytes() })
     }
 
